@@ -117,3 +117,43 @@ def c_lcase(case, out):
     return (f"{{| lc_nodes := {c_nodes(out.get('structure', []), [0])}; lc_env := {c_env(case['env'])}; lc_plain := {c_lobs(out.get('plain'))}; "
             f"lc_unrolled := {c_lobs(out.get('unrolled'))}; lc_flat := {c_lobs(flat)}; lc_flat_error := {cbool(bool(flat.get('recursion_error')))}; "
             f"lc_flat_ncomps := {cz(flat.get('n_comps', 0))}; lc_blocks := {blocks} |}}")
+
+
+# ------------------------------------------------------------------------------------------------ additions for C10
+BIG = float(2 ** 15)
+
+
+def gen_env_wide(rng):
+    """positive global durations (multiples of 0.25) with the corner classes of C10: microwave > readout, all equal,
+    all 0.25, 2^15, and gen_env's plain random choice"""
+    keys = ('READOUT', 'MICROWAVE', 'FLUX', 'RESET')
+    mode = rng.choice(['random', 'random', 'mw>ro', 'equal', 'quarter', 'big', 'quarters'])
+    if mode == 'random':
+        return gen_env(rng)
+    if mode == 'mw>ro':
+        ro = rng.choice([0.25, 0.5, 1.0, 2.0])
+        return {'READOUT': ro, 'MICROWAVE': ro + rng.choice([0.25, 0.5, 1.75, 3.0]), 'FLUX': rng.choice([0.25, 1.0, 3.0]),
+                'RESET': rng.choice([0.25, 1.0, 3.0])}
+    if mode == 'equal':
+        v = rng.choice([0.25, 0.5, 1.0, 2.0, 5.0])
+        return {k: v for k in keys}
+    if mode == 'quarter':
+        return {k: 0.25 for k in keys}
+    if mode == 'big':
+        e = {k: rng.choice([0.25, 1.0, BIG, BIG + 0.25]) for k in keys}
+        e[rng.choice(keys)] = BIG
+        return e
+    return {k: 0.25 * rng.randint(1, 40) for k in keys}
+
+
+def gen_lib_case(rng, kind, max_d=4, max_cycles=5, env=None):
+    """input for one of the library constructors handled by harness/impl/lib_impl.py"""
+    env = env or gen_env_wide(rng)
+    if kind == 'calib':
+        return {'k': 'calib', 'n': rng.randint(1, max_d + 1), 'type': rng.choice(['QUBIT', 'QUTRIT']), 'env': env}
+    desc, d = gen_desc(rng, max_d)
+    init = [rng.randint(0, 1) for _ in range(d)]
+    if kind == 'multi':
+        rounds = [rng.randint(0, max_cycles) for _ in range(rng.randint(1, 3))]
+        return {'k': 'multi', 'desc': desc, 'init': init, 'rounds': rounds, 'env': env}
+    return {'k': kind, 'desc': desc, 'init': init, 'cycles': rng.randint(0, max_cycles), 'env': env}
